@@ -34,7 +34,7 @@ Theorem C25_representative : forall buf init,
   rfc1071 buf init <= 65535 /\
   (rfc1071 buf init = 0 <-> init = 0 /\ Forall (fun b => b = 0) buf) /\
   rfc1071 buf init mod 65535 = (init + sum16 buf) mod 65535.
-Proof. intros. split; [apply rfc1071_range|]. split; [apply rfc1071_range|apply rfc1071_mod]. Qed.
+Proof. exact rfc1071_representative. Qed.
 Print Assumptions C25_representative.
 
 (* The reference is the textbook algorithm: 16-bit one's-complement additions, word by word (this is the
